@@ -12,6 +12,7 @@
   "sampled responses converge as the step shrinks".
 -/
 import Lcapy.Proofs.SpecialFnBase
+import Lcapy.Proofs.PsincAnchor
 namespace Lcapy.C17
 open Lcapy.EvalBase Lcapy.Evaluate Lcapy.Gen.SpecialFn
 open Lcapy.Spec.SpecialFn (Fn spec disc inDomain)
@@ -27,8 +28,9 @@ def Agree (f : Fn) (x : Rat) : Prop :=
 
 /-! ### one obligation per function of the table: numeric = symbolic = Spec away from discontinuities -/
 
-/-- Heaviside: all three agree everywhere, including H(0) = 1/2 -/
-theorem agree_heaviside (x : Rat) : Agree .heaviside x := by
+/-- Heaviside away from its discontinuity (the value AT 0 is `heaviside_zero_documented` below) -/
+theorem agree_heaviside (x : Rat) (h : disc .heaviside x = false) : Agree .heaviside x := by
+  simp only [disc, beq_eq_false_iff_ne, ne_eq] at h
   simp only [Agree, numericDef, symbolicDef, spec, numFor_Heaviside, num_heaviside, sympyHeaviside, sympyH0, S.heaviside]
   constructor <;> pw_arith
 
@@ -36,9 +38,9 @@ theorem agree_dirac (x : Rat) (_h : disc .dirac x = false) : Agree .dirac x := b
   simp only [Agree, numericDef, symbolicDef, spec, numFor_DiracDelta, num_dirac, sympyDirac]
   constructor <;> pw_arith
 
-/-- sign: all three agree everywhere, including sign(0) = 0 -/
-theorem agree_sign (x : Rat) : Agree .sign x := by
-  simp only [Agree, numericDef, symbolicDef, spec, numFor_sign, num_sign, num_heaviside, heavisideZero, sympySign,
+theorem agree_sign (x : Rat) (h : disc .sign x = false) : Agree .sign x := by
+  simp only [disc, beq_eq_false_iff_ne, ne_eq] at h
+  simp only [Agree, numericDef, symbolicDef, spec, numFor_sign, num_sign, num_heaviside, sympySign,
     S.sign, S.heaviside]
   constructor <;> pw_arith
 
@@ -171,12 +173,36 @@ theorem agree_psinc (M x : Rat) (hdom : inDomain (.psinc M) = true) : Agree (.ps
     have hx0 : x ≠ 0 := by
       intro h; apply hx; rw [h]; rfl
     refine ⟨?_, ?_⟩
-    · simp only [numericDef, numFor_psinc, num_psinc, hix, psincFloat, psincExact, hM0, spec, hdomS, hsx,
+    · simp only [numericDef, numFor_psinc, num_psinc, psincFloat, psincExact, hM0, spec,
         Lcapy.Spec.SpecialFn.isInt, isInt]
       simp [hx, not_le.mpr hm]
-    · simp only [symbolicDef, sym_psinc, psincExact, hM0, spec, hdomS, hsx, hix, hx0, if_true,
+    · simp only [symbolicDef, sym_psinc, psincExact, hM0, spec, hx0, if_true,
         Lcapy.Spec.SpecialFn.isInt, isInt]
       simp [hx, not_le.mpr hm]
+
+/-- the Spec's value of psinc at an integer point -/
+theorem spec_psinc_int (m n : Int) (hm : 0 < m) :
+    spec (.psinc (m : Rat)) (n : Rat) = some (S.negOnePowInt (n * (m - 1))) := by
+  have h1 : (!(Lcapy.Spec.SpecialFn.isInt (m : Rat)) || decide ((m : Rat) ≤ 0)) = false := by
+    simp [Lcapy.Spec.SpecialFn.isInt, hm]
+  have h2 : Lcapy.Spec.SpecialFn.isInt (n : Rat) = true := by simp [Lcapy.Spec.SpecialFn.isInt]
+  simp only [spec, h1, h2]
+  simp
+
+/-- **psinc_integer_value_anchor** (real analysis, why the Spec says (-1)^(n (M-1)) at the removable points): for every
+positive integer M, integer n and real offset h with sin(pi h) ≠ 0, the defining quotient at n + h is the Spec's value at n
+times the defining quotient at h -- psinc near n is psinc near 0 (whose documented limit is 1) times that sign. -/
+theorem psinc_integer_value_anchor (M n : Int) (hM : 0 < M) (h : ℝ) (hs : Real.sin (Real.pi * h) ≠ 0) :
+    ∃ v : Rat, spec (.psinc (M : Rat)) (n : Rat) = some v ∧
+      Real.sin (M * Real.pi * (n + h)) / (M * Real.sin (Real.pi * (n + h))) =
+        (v : ℝ) * (Real.sin (M * Real.pi * h) / (M * Real.sin (Real.pi * h))) := by
+  refine ⟨_, spec_psinc_int M n hM, ?_⟩
+  rw [negOnePowInt_cast]
+  exact psinc_shift_real M n h (by exact_mod_cast (ne_of_gt hM)) hs
+
+example : Real.sin (Real.pi * (1/2)) ≠ 0 := by
+  have : Real.pi * (1/2) = Real.pi / 2 := by ring
+  rw [this, Real.sin_pi_div_two]; norm_num
 
 /-- **special_fn_agree**: for every function of the table, every parameter in the documented domain and every
 rational `x` that is not a discontinuity: the numeric definition used by `evaluate`, the value of exact
@@ -184,9 +210,9 @@ substitution, and the documented value coincide (as rationals, or all three leav
 theorem special_fn_agree (f : Fn) (x : Rat) (hd : disc f x = false) (hdom : inDomain f = true) :
     numericDef f x = spec f x ∧ symbolicDef f x = spec f x := by
   cases f with
-  | heaviside => exact agree_heaviside x
+  | heaviside => exact agree_heaviside x hd
   | dirac => exact agree_dirac x hd
-  | sign => exact agree_sign x
+  | sign => exact agree_sign x hd
   | rect => exact agree_rect x hd
   | tri => exact agree_tri x
   | ramp => exact agree_ramp x
@@ -203,28 +229,36 @@ theorem special_fn_agree (f : Fn) (x : Rat) (hd : disc f x = false) (hdom : inDo
 
 -- non-vacuity: a regular point, and the hypotheses exclude exactly the points where the paths differ
 example : disc .rect (1/4) = false ∧ inDomain (.trap (1/2)) = true ∧ inDomain (.psinc 3) = true := by decide +kernel
-example : numericDef .rect (1/2) = some (1/2) ∧ symbolicDef .rect (1/2) = some 1 := by decide +kernel
+example : disc .rect (1/2) = true ∧ spec .rect (1/2) = some (1/2) ∧ spec .rect (1/4) = some 1 := by decide +kernel
 example : numericDef .rampstep 1 = some 1 ∧ symbolicDef .rampstep 1 = some 1 := by decide +kernel
 example : numericDef (.psinc 3) 5 = some 1 ∧ symbolicDef (.psinc 3) 5 = some 1 ∧ symbolicDef (.psinc 4) 5 = some (-1) := by decide +kernel
 
 /-! ### "defined in terms of Heaviside for consistency" -/
 
-/-- numeric rect is H(x + 1/2) - H(x - 1/2) with the numeric H, at EVERY x (so rect(±1/2) = 1/2) -/
+/-- numeric rect is H(x + 1/2) - H(x - 1/2) with the numeric H (called as the code calls it, without `zero`),
+at EVERY x -/
 theorem rect_via_heaviside (x : Rat) :
-    numericDef .rect x = osub (numericDef .heaviside (x + 1/2)) (numericDef .heaviside (x - 1/2)) := by
-  simp only [numericDef, numFor_rect, num_rect, numFor_Heaviside, num_heaviside, heavisideZero, sympyH0]
-  pw_arith
+    numericDef .rect x = osub (numFor_Heaviside (x + 1/2) none) (numFor_Heaviside (x - 1/2) none) := by
+  simp only [numericDef, numFor_rect, num_rect, numFor_Heaviside]
 
 /-- numeric sign is 2 H(x) - 1 with the numeric H, at every x -/
 theorem sign_via_heaviside (x : Rat) :
-    numericDef .sign x = osub (omul (some 2) (numericDef .heaviside x)) (some 1) := by
-  simp only [numericDef, numFor_sign, num_sign, numFor_Heaviside, num_heaviside, heavisideZero, sympyH0]
-  pw_arith
+    numericDef .sign x = osub (omul (some 2) (numFor_Heaviside x none)) (some 1) := by
+  simp only [numericDef, numFor_sign, num_sign, numFor_Heaviside]
 
-/-- hence numeric rect is the *documented* rect everywhere, discontinuities included -/
-theorem rect_numeric_is_documented (x : Rat) : numericDef .rect x = spec .rect x := by
-  simp only [numericDef, spec, numFor_rect, num_rect, num_heaviside, heavisideZero, S.rect, S.heaviside]
-  pw_arith
+/-- the numeric H called without `zero` is the H that evaluates `Heaviside(x)` itself, except possibly AT 0 -/
+theorem heaviside_call_forms (x : Rat) (hx : x ≠ 0) : numFor_Heaviside x none = numericDef .heaviside x := by
+  simp only [numericDef, numFor_Heaviside, num_heaviside, if_neg hx]
+
+/-- with the documented `heaviside_zero = 0.5` (config.py) the values AT the discontinuities are the documented ones
+on the numeric path: H(0) = 1/2, sign(0) = 0, rect(±1/2) = 1/2 -- the whole numeric rect/sign/H is the Spec, everywhere. -/
+theorem heaviside_zero_documented (hz : heavisideZero = 1/2) (x : Rat) :
+    numericDef .heaviside x = spec .heaviside x ∧ symbolicDef .heaviside x = spec .heaviside x ∧
+    numericDef .sign x = spec .sign x ∧ symbolicDef .sign x = spec .sign x ∧
+    numericDef .rect x = spec .rect x := by
+  simp only [numericDef, symbolicDef, spec, numFor_Heaviside, numFor_sign, numFor_rect, num_heaviside, num_sign, num_rect,
+    sympyHeaviside, sympySign, sympyH0, hz, S.heaviside, S.sign, S.rect]
+  refine ⟨?_, ?_, ?_, ?_, ?_⟩ <;> pw_arith
 
 /-- the discrete-time pair is built on the unit step in the same way -/
 theorem dtrect_dtsign_via_unitstep (x : Rat) :
@@ -240,11 +274,21 @@ theorem causal_mask (e : E) (x : Rat) (hx : x < 0) : funcScalar true e x = .val 
   simp [funcScalar, causalMask, hx]
 
 /-- the mask does nothing else: non-causal, or t ≥ 0, is the lambdified function itself -/
-theorem causal_mask_only (c : Bool) (e : E) (x : Rat) (h : c = false ∨ 0 ≤ x) :
+theorem causal_mask_only (c : Bool) (e : E) (x : Rat) (h : c = false ∨ 0 ≤ x)
+    (hb : onBoundary e x = false ∨ evalNumeric e x ≠ .nan) :
     funcScalar c e x = evalNumeric e x := by
-  rcases h with h | h
-  · simp [funcScalar, causalMask, h]
-  · simp [funcScalar, causalMask, not_lt.mpr h]
+  have hm : causalMask c x = none := by
+    rcases h with h | h
+    · simp [causalMask, h]
+    · simp [causalMask, not_lt.mpr h]
+  simp only [funcScalar, hm]
+  cases hv : evalNumeric e x with
+  | val v => rfl
+  | other => rfl
+  | nan =>
+    rcases hb with hb | hb
+    · simp [hb]
+    · exact absurd hv hb
 
 /-- the flag requires a time-domain expression -/
 theorem causal_flag (isTime selfCausal : Bool) : causalFlag isTime selfCausal = true ↔ isTime = true ∧ selfCausal = true := by
@@ -319,8 +363,11 @@ theorem guard_not_extrapolated (a : E) (x v : Rat) (hx : x < 0) :
     funcScalar false (guarded a) x ≠ .val v ∧ evalSymbolic (guarded a) x = .nan ∧ specEval (guarded a) x = .nan := by
   have hge : Rel.holds .ge x 0 = false := by simp [Rel.holds, hx]
   refine ⟨?_, ?_, ?_⟩
-  · rw [causal_mask_only false _ x (Or.inl rfl)]
-    by_cases h : evalNumeric a x = .other <;> simp [guarded, evalNumeric, selectEager, hge, h]
+  · have hn : evalNumeric (guarded a) x = .nan ∨ evalNumeric (guarded a) x = .other := by
+      by_cases h : evalNumeric a x = .other <;> simp [guarded, evalNumeric, selectEager, hge, h]
+    have hm : causalMask false x = none := by simp [causalMask]
+    simp only [funcScalar, hm]
+    rcases hn with hn | hn <;> rw [hn] <;> (try split_ifs) <;> simp
   · simp [guarded, evalSymbolic, selectLazy, hge]
   · simp [guarded, specEval, selectLazy, hge]
 
@@ -513,9 +560,11 @@ theorem expr_agree (e : E) (x : Rat) (h : regular e x = true) :
 
 /-- the observable form: at a regular point the masked scalar evaluation of a non-causal expression, or of any
 expression at t ≥ 0, is the exact symbolic value -/
-theorem evaluate_is_symbolic (c : Bool) (e : E) (x : Rat) (h : regular e x = true) (hc : c = false ∨ 0 ≤ x) :
+theorem evaluate_is_symbolic (c : Bool) (e : E) (x : Rat) (h : regular e x = true) (hc : c = false ∨ 0 ≤ x)
+    (hb : onBoundary e x = false ∨ specEval e x ≠ .nan) :
     funcScalar c e x = evalSymbolic e x := by
-  rw [causal_mask_only c e x hc, (expr_agree e x h).1, (expr_agree e x h).2.1]
+  have hn := (expr_agree e x h).1
+  rw [causal_mask_only c e x hc (by rw [hn]; exact hb), hn, (expr_agree e x h).2.1]
 
 -- non-vacuity: a nested expression at regular points, and a point that is rightly excluded
 example : regular (.add (.mul (.app .tri (.div .var (.const 2))) (.app .heaviside (.sub .var (.const 1))))
